@@ -554,8 +554,12 @@ def run_init(c) -> CaseResult:
             h = 1 + c["a"] % 6
             mods = [make_inner(k_, h) for k_ in c["inner"]]
             outside = uu.Linear(h, h, bias=True)
+            if c["bias"] and len(mods) >= 1:
+                mods = mods + [mods[0]] * (c["k"] % 3)   # a weight-shared instance repeated: depth is still len(container)
             m = uu.DepthSequential(*mods) if kind == "DepthSequential" else uu.DepthModuleList(mods)
-            expect_tags(res, m, [], len(c["inner"]), kind)
+            if len(m) != len(mods):
+                raise AssertionError("harness: container length")
+            expect_tags(res, m, [], len(mods), kind)
             expect_tags(res, outside, [], None, kind + ".outside")
         else:
             h = 1 + c["a"] % 6
